@@ -71,7 +71,14 @@ class CaseTimeout(BaseException):
     pass
 
 
+_limit_depth = 0
+outer_fired = False  # the OUTERMOST watchdog (the per-case one) has fired since the shard last cleared this
+
+
 def _alarm(signum, frame):
+    global outer_fired
+    if _limit_depth <= 1:
+        outer_fired = True
     raise CaseTimeout()
 
 
@@ -80,16 +87,20 @@ class time_limit:
         self.seconds = seconds
 
     def __enter__(self):
+        global _limit_depth
+        _limit_depth += 1
         self.old = signal.signal(signal.SIGALRM, _alarm)
         # interval 0.2 s: if some handler in the workload swallows the first CaseTimeout, the watchdog fires again
         self.outer_remaining = signal.setitimer(signal.ITIMER_REAL, self.seconds, 0.2)[0]
         self.t0 = time.monotonic()
 
     def __exit__(self, *a):
+        global _limit_depth
+        _limit_depth -= 1
         signal.setitimer(signal.ITIMER_REAL, 0)
         signal.signal(signal.SIGALRM, self.old)
         if self.outer_remaining > 0:  # nested use: re-arm the enclosing watchdog with what is left of it
-            signal.setitimer(signal.ITIMER_REAL, max(0.01, self.outer_remaining - (time.monotonic() - self.t0)))
+            signal.setitimer(signal.ITIMER_REAL, max(0.01, self.outer_remaining - (time.monotonic() - self.t0)), 0.2)
         return False
 
 
